@@ -47,7 +47,7 @@ func (c13) Meta() fw.Meta {
 			"advisory locks bind cooperating default-option handles only (WithoutFlock handles are outside the property)",
 			"recorded [acquired,releasing] intervals are subsets of the real hold intervals, so an observed overlap is a sound conviction; absence of overlap is evidence only for the schedules produced",
 		},
-		Obligations: []string{"trials", "sessions", "sessions_blocked_inprocess", "sessions_blocked_crossprocess", "porcupine_ok", "failed_open_probes", "writer_generations_checked", "reader_uniformity_checked", "creator_sessions", "double_close_sessions", "long_hold_trials", "sparse_schedule_trials", "double_close_probes"},
+		Obligations: []string{"trials", "sessions", "sessions_blocked_inprocess", "sessions_blocked_crossprocess", "porcupine_ok", "failed_open_probes", "writer_generations_checked", "reader_uniformity_checked", "creator_sessions", "double_close_sessions", "long_hold_trials", "sparse_schedule_trials", "double_close_probes", "later_opens_after_failed_open"},
 		Race:        true,
 		Workers:     8,
 	}
@@ -592,6 +592,30 @@ func c13FailedOpen(c *fw.Ctx) {
 			c.Violationf("failed-open-keeps-descriptor", fw.J{"mode": what, "descriptors": n - 1}, "after a failed %s %d descriptor(s) of the file are still open", what, n-1)
 		}
 	}
+	// a later Open of the same path by the same process (the file repaired meanwhile) is not blocked by the failed one
+	laterOpen := func(path, what string) bool {
+		ioutil.WriteFile(path, good, 0644)
+		done := make(chan error, 1)
+		go func() {
+			db, err := wt.Open(path)
+			if err == nil {
+				err = db.Close()
+			}
+			done <- err
+		}()
+		select {
+		case err := <-done:
+			c.Count("later_opens_after_failed_open", 1)
+			if err != nil {
+				c.Violationf("later-open-fails-after-failed-open", fw.J{"mode": what, "err": err.Error()}, "after a failed %s, Open of the same path (now holding a valid file) failed: %v", what, err)
+				return false
+			}
+			return true
+		case <-time.After(30 * time.Second):
+			c.Violationf("failed-open-blocks-later-open", fw.J{"mode": what}, "after a failed %s, a later Open of the same path by the same process did not return within 30 s", what)
+			return false
+		}
+	}
 	for _, m := range modes {
 		p := filepath.Join(dir, "fo-"+m.name+".wsp")
 		ioutil.WriteFile(p, m.img, 0644)
@@ -603,6 +627,9 @@ func c13FailedOpen(c *fw.Ctx) {
 		}
 		c.Count("failed_open_probes", 1)
 		probe(p, "Open("+m.name+")")
+		if !laterOpen(p, "Open("+m.name+")") {
+			return
+		}
 		os.Remove(p)
 	}
 	// Create failing after the descriptor exists: existing file opened read-only => Truncate fails
@@ -615,6 +642,7 @@ func c13FailedOpen(c *fw.Ctx) {
 	} else {
 		c.Count("failed_create_probes", 1)
 		probe(p, "Create(read-only flag)")
+		laterOpen(p, "Create(read-only flag)")
 	}
 	os.Remove(p)
 }
